@@ -1,22 +1,31 @@
 //! C17 — the human-readable encoding round-trips; parsing terminates on every string.
 //!
 //! ops (Lean model `HumanLex/HumanTy/HumanText/HumanProg.lean`, driver `Driver/C17.lean`):
-//!   `render P|N <plan> T:… C:…`  → `ok <statements>` | `truncated`: the model of
+//!   `render P|N <plan> T:… C:…`  → `ok <statements>`: the model of
 //!        `Forest::from_program(commit).string_serialize()` — conversion under MaxSharing, the
 //!        Namer's names, the pointer walk, the three sections, every spelling, the type printer —
 //!        compared with the real text after dropping comment lines and collapsing white space;
 //!   `parse <text hex> T:… C:…`   → `ok <root cmr> <nodes>` | `no`: the model's lexer + parser of the
-//!        rendered grammar + name resolution + type check, on rendered texts and on mutations of
-//!        them that stay inside the flat grammar;
+//!        rendered grammar + name resolution + type check against the annotations, on rendered texts
+//!        and on mutations of them that stay inside the flat grammar (reorder, swap children,
+//!        duplicate / delete a line, change an annotation, rename, change a literal, rewire);
 //!   `lex <text hex>`             → `ok` | `lexerr`: the model's lexer on arbitrary strings;
-//!   `ty <type>`                  → `<printed> back|noparse` | `truncated`.
+//!   `ty <type>`                  → `<printed> back|noparse`: type printer and type parser
+//!        (including the nesting limit).
 //! oracle (implementation alone):
-//!   committed program → `from_program` → `string_serialize` → `parse` → same CMR, same name / kind /
-//!   payload / arrow / IHR at every node (lock-step walk of both DAGs), same `to_vec_without_witness`
-//!   bytes → render again (same text) → parse again;
-//!   generated source text → `parse` → render → parse → the same;
-//!   arbitrary strings → `parse` returns (no panic, no abort, no hang), and whatever parses to a
-//!   single program round-trips as above.
+//!   committed program → `from_program` → `string_serialize` → `parse` → one root `main`, same CMR,
+//!   same name / kind / literal data / arrow / IHR at every node object (lock-step walk of both DAGs),
+//!   same `to_vec_without_witness` bytes (also against the commit's own bytes when those decode)
+//!   → render again (identical text) → parse again;
+//!   generated source text → `parse` → the same round trip, and the CMR of the API-built program;
+//!   the arrows of the parsed forest written back as annotations are accepted;
+//!   arbitrary strings → `parse` returns (no panic, no abort, no hang: 10^5 levels of nesting run in
+//!   child processes with a time limit), and whatever parses to a single program round-trips.
+//! classes: one per clause (`reparse-cmr`, `reparse-node-differs`, `reparse-encoding`,
+//!   `render-not-fixpoint`, `second-generation`, `panic-*`, `abort-on-nesting`, `hang-on-nesting`, …) and
+//!   one per repaired defect, by cause of the re-parse error (`fail-entropy-no-0x`,
+//!   `type-2exp-over-512`, `type-display-truncated`, `namer-name-collision`,
+//!   `rendered-annotation-rejected`, `rendered-text-rejected`).
 
 use crate::ctx::{catch, Ctx, Rng};
 use crate::gen::{self, GenCfg, PNode, Plan, T};
@@ -568,7 +577,7 @@ fn mutate_flat(r: &mut Rng, text: &str) -> Option<(String, &'static str)> {
 }
 
 fn programs(ctx: &mut Ctx) {
-    let n = ctx.scale(450, 4_500);
+    let n = ctx.scale(350, 4_500);
     let mut it = 0u64;
     let mut done = 0;
     while done < n && it < 10 * n {
